@@ -127,3 +127,92 @@ Example C07_nonvacuous_values :
   map res_q (wrun sum_agg (WN 2) nv_batches) = [6 # 1; 6 # 1; 7 # 1; 12 # 1]%Q /\
   map res_q (wrun (mean_agg true true) (WT true 2%Z) nv_batches) = [3 # 1; 3 # 1; 7 # 2; 7 # 1]%Q.
 Proof. split; vm_compute; reflexivity. Qed.
+
+(* ---- aggregation bridges (harness/mkprops_aggs.py): begin ---- *)
+(* The aggregation classes are the ones regenerated from the source under test on this run: Gen/KA_<class>.v is written by
+   harness/gen_aggs.py from the python AST of streamz/dataframe/aggregations.py (symbolic execution over an abstract pandas
+   interface, Base/AggPrims.v; the mapping of the pandas primitives is printed into every generated file).
+   Base/BridgeAggsWindow.v proves that, with the interface instantiated by the frames of DF/Window.v, the state component
+   they return is the model's on_new / on_old and the value they return is `fin` of that state (repaired scalar variant:
+   mean_agg true true, var_agg true true ddof); f2onum: a float result as the model's onum, infinities kept apart. *)
+From SZ Require Import Base.AggPrims Base.BridgeAggsWindow Base.BridgeAggsIloc.
+From SZ Require Gen.KA_Sum Gen.KA_Count Gen.KA_Size Gen.KA_Mean Gen.KA_Var Gen.KA_Accumulator Gen.KA_DiffIloc.
+Theorem C07_bridge_Sum :
+  (* sum_on_new *)
+  (forall acc new,
+   fst (Gen.KA_Sum.gen_sum_on_new window_ops acc new) = Window.on_new sum_agg acc new /\
+   ONum (snd (Gen.KA_Sum.gen_sum_on_new window_ops acc new)) = fin sum_agg (Window.on_new sum_agg acc new)) /\
+  (* sum_on_old *)
+  (forall acc old,
+   fst (Gen.KA_Sum.gen_sum_on_old window_ops acc old) = Window.on_old sum_agg acc old /\
+   ONum (snd (Gen.KA_Sum.gen_sum_on_old window_ops acc old)) = fin sum_agg (Window.on_old sum_agg acc old)) /\
+  (* sum_initial *)
+  (forall new, Gen.KA_Sum.gen_sum_initial window_ops new = init sum_agg).
+Proof. exact (conj bridge_w_sum_on_new (conj bridge_w_sum_on_old bridge_w_sum_initial)). Qed.
+Print Assumptions C07_bridge_Sum.
+Theorem C07_bridge_Count :
+  (* count_on_new *)
+  (forall acc new,
+   fst (Gen.KA_Count.gen_count_on_new window_ops acc new) = Window.on_new count_agg acc new /\
+   ONum (z2qc (snd (Gen.KA_Count.gen_count_on_new window_ops acc new))) = fin count_agg (Window.on_new count_agg acc new)) /\
+  (* count_on_old *)
+  (forall acc old,
+   fst (Gen.KA_Count.gen_count_on_old window_ops acc old) = Window.on_old count_agg acc old /\
+   ONum (z2qc (snd (Gen.KA_Count.gen_count_on_old window_ops acc old))) = fin count_agg (Window.on_old count_agg acc old)) /\
+  (* count_initial *)
+  (forall new, Gen.KA_Count.gen_count_initial window_ops new = init count_agg).
+Proof. exact (conj bridge_w_count_on_new (conj bridge_w_count_on_old bridge_w_count_initial)). Qed.
+Print Assumptions C07_bridge_Count.
+Theorem C07_bridge_Size :
+  (* size_on_new *)
+  (forall acc new,
+   fst (Gen.KA_Size.gen_size_on_new window_ops acc new) = Window.on_new size_agg acc new /\
+   ONum (z2qc (snd (Gen.KA_Size.gen_size_on_new window_ops acc new))) = fin size_agg (Window.on_new size_agg acc new)) /\
+  (* size_on_old *)
+  (forall acc old,
+   fst (Gen.KA_Size.gen_size_on_old window_ops acc old) = Window.on_old size_agg acc old /\
+   ONum (z2qc (snd (Gen.KA_Size.gen_size_on_old window_ops acc old))) = fin size_agg (Window.on_old size_agg acc old)) /\
+  (* size_initial *)
+  (forall new, Gen.KA_Size.gen_size_initial window_ops new = init size_agg).
+Proof. exact (conj bridge_w_size_on_new (conj bridge_w_size_on_old bridge_w_size_initial)). Qed.
+Print Assumptions C07_bridge_Size.
+Theorem C07_bridge_Mean :
+  (* mean_on_new *)
+  (forall acc new,
+   fst (Gen.KA_Mean.gen_mean_on_new window_ops acc new) = Window.on_new (mean_agg true true) acc new /\
+   f2onum (snd (Gen.KA_Mean.gen_mean_on_new window_ops acc new)) = fin (mean_agg true true) (Window.on_new (mean_agg true true) acc new)) /\
+  (* mean_on_old *)
+  (forall acc old,
+   fst (Gen.KA_Mean.gen_mean_on_old window_ops acc old) = Window.on_old (mean_agg true true) acc old /\
+   f2onum (snd (Gen.KA_Mean.gen_mean_on_old window_ops acc old)) = fin (mean_agg true true) (Window.on_old (mean_agg true true) acc old)) /\
+  (* mean_initial *)
+  (forall new, Gen.KA_Mean.gen_mean_initial window_ops new = init (mean_agg true true)) /\
+  (* divide *)
+  (forall totals counts, f2onum (Gen.KA_Mean.gen_divide window_ops totals counts) = mean_fin (totals, counts)).
+Proof. exact (conj bridge_w_mean_on_new (conj bridge_w_mean_on_old (conj bridge_w_mean_initial bridge_w_divide))). Qed.
+Print Assumptions C07_bridge_Mean.
+Theorem C07_bridge_Var :
+  (* var_on_new *)
+  (forall ddof acc new,
+   fst (Gen.KA_Var.gen_var_on_new window_ops ddof acc new) = Window.on_new (var_agg true true ddof) acc new /\
+   f2onum (snd (Gen.KA_Var.gen_var_on_new window_ops ddof acc new)) = fin (var_agg true true ddof) (Window.on_new (var_agg true true ddof) acc new)) /\
+  (* var_on_old *)
+  (forall ddof acc old,
+   fst (Gen.KA_Var.gen_var_on_old window_ops ddof acc old) = Window.on_old (var_agg true true ddof) acc old /\
+   f2onum (snd (Gen.KA_Var.gen_var_on_old window_ops ddof acc old)) = fin (var_agg true true ddof) (Window.on_old (var_agg true true ddof) acc old)) /\
+  (* var_initial *)
+  (forall ddof new, Gen.KA_Var.gen_var_initial window_ops new = init (var_agg true true ddof)) /\
+  (* var_compute_result *)
+  (forall ddof x x2 n, f2onum (Gen.KA_Var.gen_var_compute_result window_ops ddof x x2 n) = var_fin ddof (x, x2, n)) /\
+  (* var_total *)
+  (forall ddof, raises_on_pyint (var_agg true true ddof) = false).
+Proof. exact (conj bridge_w_var_on_new (conj bridge_w_var_on_old (conj bridge_w_var_initial (conj bridge_w_var_compute_result bridge_w_var_total)))). Qed.
+Print Assumptions C07_bridge_Var.
+Theorem C07_bridge_diff :
+  (* diff_expanding *)
+  (forall dfs new, Some (Gen.KA_Accumulator.gen_diff_expanding window_ops dfs new) = diff WE dfs new) /\
+  (* diff_iloc *)
+  (forall N dfs new, Gen.KA_DiffIloc.gen_diff_iloc window_ops dfs new (Z.of_nat N) = Some (diff_iloc N dfs new)).
+Proof. exact (conj bridge_w_diff_expanding bridge_w_diff_iloc). Qed.
+Print Assumptions C07_bridge_diff.
+(* ---- aggregation bridges (harness/mkprops_aggs.py): end ---- *)
